@@ -87,6 +87,16 @@ def make_lines(rng, n):
                      ("C %s %s %s K 0" % (scene.fpt(*P()), scene.fpt(*P()), scene.fpt(*P())))
                 ops = ["M " + scene.fpt(*P()), cv] + ["L " + scene.fpt(*P()) for _ in range(rng.randrange(0, 2))] + ["Z"]
         x, y = query(rng, ops)
+        if i % 16 == 7:
+            # vertices on a 1/32 grid hundreds of pixels out, the query exactly on an edge (1/2, 1/4, 3/4 of the way): the
+            # two products of the cross product need more than 24 bits and are rounded - to the same float
+            fine = lambda r: (r.randrange(-2000, 16000) / 32.0, r.randrange(-2000, 16000) / 32.0)
+            ops = pc.polyline_ops(rng, pt=fine)
+            vs = verts(ops)
+            if len(vs) >= 2:
+                j = rng.randrange(len(vs) - 1)
+                k = rng.choice([0.5, 0.25, 0.75, 0.5])
+                x, y = vs[j][0] + (vs[j + 1][0] - vs[j][0]) * k, vs[j][1] + (vs[j + 1][1] - vs[j][1]) * k
         ce = curve_extremes(ops) if rng.random() < 0.6 else []
         if ce:
             # just inside (or just beyond) the farthest point of a curve's bulge
@@ -199,9 +209,10 @@ def exact_statement(aug):
         inbox = min(a[0], b[0]) <= x <= max(a[0], b[0]) and min(a[1], b[1]) <= y <= max(a[1], b[1])
         if (spans or inbox) and cr != 0 and abs(cr) <= (abs(t1) + abs(t2)) / 100000:
             return None
-        # exactly collinear in rational arithmetic: the crate sees it only if none of its f32 operations rounds
+        # exactly collinear in rational arithmetic: when the four differences are exact in f32 the two products are the
+        # same real number, round to the same float and the crate's cross product is exactly 0; otherwise undetermined
         if (spans or inbox) and cr == 0 and t1 != 0:
-            if not all(is_f32(v) for v in (dx, dy, y - a[1], x - a[0], t1, t2)):
+            if not all(is_f32(v) for v in (dx, dy, y - a[1], x - a[0])):
                 return None
         if cr == 0 and inbox:
             on = True
@@ -314,6 +325,14 @@ def fill_agreement(ctx):
         if o.split()[1] == "ok" and o.split()[2] != e:
             if e == "false" and on_some_segment(q):
                 continue      # a zero-area part of the path passes exactly through the pixel centre: 'on a segment' wins
+            # a sliver of the shape thinner than the sampling grid can pass through the centre of a pixel that fill leaves
+            # untouched (or a gap through a painted one): the winding-number statement itself decides such a point, and
+            # when it agrees with contains_point there is nothing to report
+            import subprocess
+            p_ = subprocess.run([build.RQV, "aug"], input=q + "\n", stdout=subprocess.PIPE, stderr=subprocess.PIPE, text=True, timeout=600)
+            ex = exact_statement(p_.stdout.strip()) if p_.returncode == 0 else None
+            if ex is not None and ex == o.split()[2]:
+                continue
             ctx.violation("fill-%s" % q.split()[1], q, "contains_point says %s for the centre of a pixel whose whole 3x3 neighbourhood fill %s"
                           % (o.split()[2], "painted fully" if e == "true" else "left untouched"))
             return
